@@ -6,6 +6,10 @@ be used by anything else meanwhile."""
 import json, os, subprocess, sys
 rows = []
 only = set(sys.argv[1:])
+previous = []
+if only and os.path.exists("/verif/seeded/RESULTS.json"):
+    # a partial run updates the rows of the seeds it ran and keeps the others
+    previous = json.load(open("/verif/seeded/RESULTS.json"))
 if subprocess.run("git -C /repo status --porcelain -- src", shell=True, capture_output=True, text=True).stdout.strip():
     sys.exit("/repo has uncommitted changes under src; refusing")
 for d in sorted(os.listdir("/verif/seeded")):
@@ -38,4 +42,5 @@ for d in sorted(os.listdir("/verif/seeded")):
         res = ("detected by " + ",".join(det)) if det else ("CHECK-BROKEN " + ",".join(broken) if broken else "MISSED")
     rows.append((d, res, meta.get("summary", "")[:110]))
     print(f"{d:8s} {res:28s} {meta.get('summary','')[:110]}", flush=True)
-    json.dump(rows, open("/verif/seeded/RESULTS.json", "w"), indent=1)
+    done = {r[0] for r in rows}
+    json.dump(sorted([list(r) for r in previous if r[0] not in done] + [list(r) for r in rows]), open("/verif/seeded/RESULTS.json", "w"), indent=1)
